@@ -49,6 +49,9 @@ PROBES = ("bank_select_with_program", "midifile_object_reused", "second_generati
 
 def gen_perf(w, k):
     nparts = k.choice((1, 1, 2, 3))
+    if k.random() < 0.03:
+        # an orchestral file: more parts (one track each) than a MIDI port has channels
+        nparts = k.choice((17, 20, 24))
     ppq = k.choice((480, 960, 96, 24, 1000))
     mpq = k.choice((500000, 600000, 250000, 1000000, 480000))
     parts = []
@@ -56,7 +59,7 @@ def gen_perf(w, k):
     for pi in range(nparts):
         # track numbers as a caller may give them: per part, not necessarily starting at 0, contiguous or distinct
         # from those of the other parts (Performance() makes them unique without mixing parts)
-        tracks = list(w.choice(([2 * pi], [2 * pi], [2 * pi, 2 * pi + 1], [0], [0, 1], [0, 2], [1, 3], [5], [2, 0])))
+        tracks = list(w.choice(([2 * pi], [2 * pi], [2 * pi, 2 * pi + 1], [0], [0, 1], [0, 2], [1, 3], [5], [2, 0]))) if nparts < 17 else [pi]
         notes = []
         for i in range(k.choice((1, 3, 6, 12))):
             # some onsets exactly on a tick, some exactly at .5 ticks, some arbitrary
@@ -125,7 +128,8 @@ def gen_foreign(w, k):
     ppq = k.choice((480, 96, 24, 960))
     ntr = k.choice((1, 2, 3))
     tracks = [[] for _ in range(ntr)]
-    for _ in range(k.choice((0, 1, 2, 4))):
+    # (40 and 64: a rendered performance with a dense tempo map)
+    for _ in range(k.choice((0, 1, 2, 4, 0, 1, 2, 4, 0, 1, 2, 4, 40, 64))):
         tr = w.randrange(0, ntr)
         tracks[tr].append({"tick": w.choice((0, 0, w.randrange(0, 4000))), "type": "set_tempo", "tempo": w.choice((500000, 250000, 600000, 1000000, 333333, 750000))})
     used = []  # across tracks too: with merge_tracks on load all notes share one track
@@ -403,6 +407,14 @@ def check_file(res, data, pps, perf, kn):
             return
 
 
+    # a program change sits on a track and channel that is in use (the default program of a part without programs
+    # belongs to the channels of that part's own track)
+    for ti, tr in enumerate(smf["tracks"]):
+        used_ch = set(ev["channel"] for ev in tr if ev["type"] in ("note_on", "note_off", "control_change"))
+        stray = sorted(set(ev["channel"] for ev in tr if ev["type"] == "program_change") - used_ch)
+        if stray and not any(int(p_.get("channel", 0)) in stray for pp in pps for p_ in pp.programs):
+            res.violation("P1-file", "save", "track %d has program changes on channel(s) %s, its notes and controls use %s" % (ti, stray, sorted(used_ch)), site="default-program")
+            return
     # a bank select that comes with a program change (same tick, same channel) is in front of it: a device applies the
     # bank to the next program change it receives
     # (judged for the program changes the performance has; the default program 0 the writer adds to a channel without
